@@ -148,6 +148,9 @@ fn model(log: &[Rec], setups: &[Setup], preload_empty: bool, m: &mut Mon) {
                     }
                 }
             }
+            Ev::EmbedderRename { to } => {
+                system_app = to.clone();
+            }
             Ev::Restart => {
                 let crashed_early = !passed_first_next;
                 end_incarnation(m, expect_report, &record_at_start, reported, start_wall, passed_first_next, clean_install_in_inc, &durable, crashed_early, missed_consistent_opportunity, next_after_report);
@@ -317,10 +320,10 @@ fn mem_target_before(mem: &Book) -> Option<String> {
 
 pub fn run(args: &Args, r: &mut Report) {
     r.rule_text = "Histories of 1..4 process incarnations x 1..2 install attempts each over 1..3 apps: plan id same / new, per-app results \
-        {installed, deferred, failed}, system app (first of the set) offered or not, manifest version present or not, reboot needed or \
+        {installed, deferred, failed}, system app (first of the set; in a sixth of the histories the embedder changes its id in place, a channel change) offered or not, manifest version present or not, reboot needed or \
         not; incarnations are separated by a clean kill at quiescence or a crash injected at a random boundary interaction; the next \
         incarnation runs the stored target version, 'UNKNOWN' or another version; between incarnations the clocks jump (reboot time, \
-        wall clock set back before the finish time); in half of the cases every clock read advances time (delays between start and \
+        wall clock set back before the finish time; a fifth of the installs see a time sync — wall clock stepped forwards or backwards relative to the monotonic one — while the installer runs); in half of the cases every clock read advances time (delays between start and \
         report).  A log-order model tracks first-seen time per plan, failed-install count, finish time / target version with \
         durability = 'a successful commit was observed afterwards'.  Shape key = per incarnation: os-version class, crash?, clock \
         relation, per attempt: plan same/new + offered pattern + results.  Non-trivial = more than one attempt or incarnation."
@@ -340,7 +343,7 @@ pub fn run(args: &Args, r: &mut Report) {
         "c18-no-report-with-inconsistent-clocks",
     ]);
     r.assume("a crash between the metric report and the clearing commit may lead to a second report by the next state machine (not decided by the statement)");
-    r.assume("within one incarnation wall and monotonic clocks advance together; jumps happen only across restarts");
+    r.assume("the monotonic clock never goes backwards; the wall clock may be stepped across restarts, by a correction while the machine waits, and by a time sync while an install runs");
     let n = args.budget(30_000, 400_000);
     for i in 0..n {
         if args.skip(i) {
@@ -356,6 +359,10 @@ pub fn run(args: &Args, r: &mut Report) {
         let mut last_target: Option<String> = None;
         let mut os = "1.0.0.0".to_string();
         let autotick = rng.bool();
+        // a channel change that gives the system app a new Omaha id, applied in place by the embedder right
+        // after one incarnation has been built; later incarnations are constructed with the new id
+        let rename_at: Option<usize> = if rng.chance(1, 6) { Some(rng.usize(n_inc)) } else { None };
+        let new_sys_id = "{app-a-beta}".to_string();
         for k in 0..n_inc {
             let attempts = 1 + rng.usize(2);
             let mut lab = format!("os={}", if Some(&os) == last_target.as_ref() { "target" } else { "other" });
@@ -373,7 +380,8 @@ pub fn run(args: &Args, r: &mut Report) {
                         1 => AppKind::OfferNoVersion,
                         _ => AppKind::Offer,
                     };
-                    let mut da = doc_app(&apps[ai].id, kind, &mut rng, false);
+                    let id = if ai == 0 && rename_at.map(|r| k >= r).unwrap_or(false) { new_sys_id.clone() } else { apps[ai].id.clone() };
+                    let mut da = doc_app(&id, kind, &mut rng, false);
                     if kind == AppKind::Offer {
                         let v = format!("{}.0.0.{}", 2 + rng.below(3), rng.below(3));
                         da.updatecheck = Some(UcSpec::ok(Some(&v)));
@@ -413,6 +421,17 @@ pub fn run(args: &Args, r: &mut Report) {
                     results,
                     progress: vec![0.5],
                     reboot_needed: rng.bool(),
+                    // a time sync arriving while the update is being downloaded
+                    install_clock_step: if rng.chance(1, 5) {
+                        lab.push_str("+sync");
+                        Some(match rng.below(3) {
+                            0 => (3_600_000_000_000, 20_000_000_000),
+                            1 => (-1_800_000_000_000, 10_000_000_000),
+                            _ => (86_400_000_000_000i128 * 3650, 5_000_000_000),
+                        })
+                    } else {
+                        None
+                    },
                     ..Default::default()
                 });
                 script.decisions.push(Decision::Ok(ParamsSnap::default_lib()));
@@ -429,7 +448,14 @@ pub fn run(args: &Args, r: &mut Report) {
             };
             lab.push_str(&format!("|crash={}|jump={}", crash_at.is_some(), if jump.0 < 0 { "back" } else if jump.0 == 0 { "none" } else { "fwd" }));
             shape.push(lab);
-            let setup = Setup { apps: apps.clone(), start_mode: true, os_version: os.clone(), cup: false, ..Default::default() };
+            let mut inc_apps = apps.clone();
+            if rename_at.map(|r| k > r).unwrap_or(false) {
+                inc_apps[0].id = new_sys_id.clone();
+            }
+            if rename_at == Some(k) {
+                shape.push("rename".into());
+            }
+            let setup = Setup { apps: inc_apps, start_mode: true, os_version: os.clone(), cup: false, ..Default::default() };
             incs.push(Inc { setup, stop_idle: attempts, crash_at, jump });
             // choose the next incarnation's running version
             os = match rng.below(3) {
@@ -468,6 +494,9 @@ pub fn run(args: &Args, r: &mut Report) {
                 g.crash_at = Some(g.interactions + c);
             }
             let mut dd = if k == 0 { Driver::new(&w, &inc.setup) } else { Driver::restart_keep_crash(&w, &inc.setup) };
+            if rename_at == Some(k) && !dd.crashed() {
+                dd.rename_system_app("beta", &new_sys_id);
+            }
             let stop = inc.stop_idle;
             // run one extra policy question past the last Idle so that a pending report / clearing happens
             let base_next = lock(&w).n_next;
